@@ -34,7 +34,7 @@ PROP = "C20"
 RULE = (
     "bounded-exhaustive: settings sheets with form_id / id_string headers in both orders x each/both/neither cell filled; begin group/repeat x 6 label shapes x 7 appearances (field-list / table-list combinations) x 3 placements; every 3-choice list over 2 names x labeled/unlabeled x duplicates allowed or not; every subset of 3 translatable columns x {default, 2 languages} on the survey sheet and on the "
     "choices sheet (512 each per column triple, converted), every string within edit radius 1 of each supported sheet "
-    "name over a 31-letter alphabet (+ samples of radius 2/3, case variants, underscore prefixes), language labels x "
+    "name over a 31-letter alphabet, each also in upper / title / mixed case; the similar-names hint of the missing-sheet errors (survey, choices, external_choices) (+ samples of radius 2/3, case variants, underscore prefixes), language labels x "
     "bracketed-code shapes; random: generated forms with row-level triggers (disabled, comment rows, deprecated types, "
     "unlabeled groups/repeats/choices, image parameters, select_one_external, or_other, duplicate id headers, "
     "misspelt sheet names, 0-3 languages with sparse translations) placed at random; direct function-level "
@@ -411,6 +411,14 @@ def misspell_direct(ctx, key: str, keys: list):
     """find_sheet_misspellings called directly on a batch of sheet names."""
     from pyxform.validators.pyxform.sheet_misspellings import find_sheet_misspellings
 
+    # the model's `lower` is ASCII: names with other characters go through the implementation only (counted)
+    nonascii = [k for k in keys if not k.isascii()]
+    if nonascii:
+        ctx.count("misspell:non_ascii_names_skipped", len(nonascii))
+        find_sheet_misspellings(key=key, keys=nonascii)  # must not raise
+        keys = [k for k in keys if k.isascii()]
+        if not keys:
+            return
     msg = find_sheet_misspellings(key=key, keys=keys)
     if msg is None:
         impl = None
@@ -432,11 +440,21 @@ def misspell_direct(ctx, key: str, keys: list):
                          {"kind": "misspell", "key": key, "keys": keys}, signature="misspell-direct"))
 
 
+def case_variants(s: str) -> list:
+    """upper, title, and two mixed-case spellings of a name"""
+    alt = "".join(c.upper() if i % 2 else c.lower() for i, c in enumerate(s))
+    return [s.upper(), s.capitalize(), alt, alt.swapcase()]
+
+
 def misspell_cases(ctx, factor):
     rng = ctx.rng
     for key in SUPPORTED:
         names = sorted(radius1(key))
         ctx.count("misspell:radius1_exhaustive", len(names))
+        # every near miss also in upper / title / mixed case (the comparison is made on the lower-cased name)
+        cased = sorted({v for n in names for v in case_variants(n)} - set(names))
+        ctx.count("misspell:radius1_case_variants", len(cased))
+        names = names + cased
         for i in range(0, len(names), 400):
             misspell_direct(ctx, key, names[i:i + 400])
             ctx.record({"misspell": [key, i]}, True)
@@ -448,8 +466,8 @@ def misspell_cases(ctx, factor):
                 s = rand_edit(rng, s)
             if rng.random() < 0.15:
                 s = "_" + s
-            if rng.random() < 0.15:
-                s = s.capitalize() if rng.random() < 0.5 else s.upper()
+            if rng.random() < 0.4:
+                s = rng.choice(case_variants(s))
             if "'" not in s:
                 pool.append(s)
         pool += [key.upper(), key.capitalize(), "_" + key, key + "s", key[:-1]] + SUPPORTED
@@ -681,7 +699,8 @@ def iana_cases(ctx, n):
 
 LANG_POOL = ["English (en)", "French (fr)", "fr", "Español", "Deutsch (de)", "Bosnian (bos)", "en", "Acoli (ach)", "Klingon (tlh) "]
 BAD_SHEETS = ["setting", "Settings", "setings", "_settings", "entity", "entitie", "Entities", "ENTITIES", "choice", "survy",
-              "osm", "notes", "stings", "settingss", "settinsg", "sett", "entities2", "_entities", "SETTINGS", "external_choice"]
+              "osm", "notes", "stings", "settingss", "settinsg", "sett", "entities2", "_entities", "SETTINGS", "external_choice",
+              "SETTING", "Setingz", "STETINGS", "sEtTiNg", "ENTITIE", "Entitys", "eNtItIeZ", "SETINGS", "Sett1ngs"]
 
 
 def triggered_form(rng, big=False) -> dict:
@@ -858,6 +877,57 @@ def section_label_enum(ctx):
                     workbook_case(ctx, case, "section_enum", must_convert="section with/without label, field-list / table-list appearance")
 
 
+HINT = re.compile(r"When looking for a sheet named '([a-z_]+)', the following sheets with similar names were found: (.*?)'\.(?: |$)", re.S)
+
+
+def error_hint_cases(ctx):
+    """The missing-sheet *errors* (survey, choices, external_choices) carry the same 'similar names' hint: for near
+    misses of the missing sheet's name in lower / upper / title / mixed case the hint must name exactly the candidates
+    due (and be absent when there is none)."""
+    from pyxform.errors import PyXFormError
+    from pyxform.xls2xform import convert
+
+    rng = ctx.rng
+    builders = {
+        "survey": lambda names: {"choices": [{"list_name": "l", "name": "a", "label": "A"}], "sheet_names": names},
+        "choices": lambda names: {"survey": [{"type": "select_one l", "name": "q", "label": "Q"}], "sheet_names": names},
+        "external_choices": lambda names: {
+            "survey": [{"type": "select_one_external l", "name": "q", "label": "Q", "choice_filter": "a=1"}],
+            "choices": [{"list_name": "l", "name": "a", "label": "A"}], "sheet_names": names},
+    }
+    for key, build in builders.items():
+        near = sorted(radius1(key) - {key})
+        for _ in range(ctx.pick(12, 120)):
+            picks = rng.sample(near, 2)
+            far = rand_edit(rng, rand_edit(rng, rand_edit(rng, key)))
+            names = [n for n in ["survey"] + [v for p in picks for v in rng.sample([p] + case_variants(p), 2)]
+                     + [rng.choice(case_variants(far)), "_" + picks[0]] if n.isascii() and "'" not in n and n != key]
+            rng.shuffle(names)
+            case = {k: v for k, v in to_dict(dict(build(names), sheet_names=names)).items()}
+            try:
+                convert(xlsform=copy.deepcopy(case))
+                ctx.count("error_hint:converted")
+                continue
+            except PyXFormError as e:
+                msg = str(e)
+            except Exception as e:  # noqa: BLE001
+                ctx.count("error_hint:internal")
+                continue
+            ctx.count("error_hint:cases")
+            m = HINT.search(msg)
+            got = split_quoted(m.group(2) + "'") if m and m.group(1) == key else []
+            v = ctx.driver.call("warn.misspell", key=key, keys=names)
+            if v["outcome"] != "ok":
+                continue
+            if (got or None) != v["model"]:
+                ctx.mismatch("missing-sheet error hint: model vs implementation", {"key": key, "names": names}, got, v["model"])
+            if got != v["spec"]:
+                ctx.fail(Failure("misspelling-hint", f"missing sheet {key}: hint names {got}, due {v['spec']}",
+                                 {"kind": "hint", "key": key, "case": case}, signature="hint",
+                                 extra={"msg": msg[:600]}))
+            ctx.record({"hint": [key, names]}, True)
+
+
 def settings_id_enum(ctx):
     """The duplicate form_id / id_string headers: which of the two headers are present x header order x which of
     the two cells are filled x other settings cells.  The warning is about *headers*; a form whose twin without the
@@ -932,6 +1002,7 @@ def explore(ctx, factor, bs):
     choice_list_enum(ctx)
     section_label_enum(ctx)
     settings_id_enum(ctx)
+    error_hint_cases(ctx)
     lev_cases(ctx, ctx.pick(3000, 40000) * factor)
     misspell_cases(ctx, factor)
     header_cases(ctx, ctx.pick(1500, 20000) * factor)
